@@ -127,6 +127,11 @@ namespace sim { namespace asio {
 		m_sim.remove_timer(t);
 	}
 
+	void io_context::replace_timer(high_resolution_timer* from, high_resolution_timer* to)
+	{
+		m_sim.replace_timer(from, to);
+	}
+
 	boost::asio::io_context& io_context::get_internal_service()
 	{ return m_sim.get_internal_service(); }
 
